@@ -1,7 +1,7 @@
 (* C11: VLAN-list commands change exactly the VLANs that differ.
    Declarative reference and the boolean property predicate. *)
 From Coq Require Import List String Ascii Bool Arith NArith.
-From Annet Require Import Base.Str Model.Vlan Model.VlanDb.
+From Annet Require Import Base.Str Model.Vlan Model.VlanDb Model.VlanCisco.
 Import ListNotations.
 Open Scope string_scope.
 Open Scope list_scope.
@@ -444,3 +444,170 @@ Definition bad_line_db (l : string) : list (N * N) :=
 
 Definition check_data_db (data : string) : list (N * N) :=
   flat_map bad_line_db (split_lines data).
+
+(* ====================================================================================== *)
+(* The Cisco / Nexus global `vlan` rule: list rows + `vlan N` blocks in one slot.          *)
+
+(* input: hw.Catalyst, the old and the new rows of the `vlan` rule *)
+Definition input_cdb := (bool * ccfg * ccfg)%type.
+Definition cdb_cat (x : input_cdb) : bool := fst (fst x).
+Definition cdb_old (x : input_cdb) : ccfg := snd (fst x).
+Definition cdb_new (x : input_cdb) : ccfg := snd x.
+Definition Scdb_old (x : input_cdb) : NS.t := set_of_ccfg (cdb_old x).
+Definition Scdb_new (x : input_cdb) : NS.t := set_of_ccfg (cdb_new x).
+
+(* ---- domain ---- *)
+
+Fixpoint nodup_crows (c : ccfg) : bool :=
+  match c with [] => true | r :: t => negb (has_crow (fst r) t) && nodup_crows t end.
+
+Definition cchild_ok (row : string) : bool :=
+  match words row with w :: _ => negb (String.eqb w "no") | [] => false end.
+
+(* a row: ranges lo <= hi, not empty; child rows only under a row naming one VLAN; no `no ...`
+   child rows, at most one row per option rule *)
+Definition crow_ok (r : crow) : bool :=
+  forallb range_ok (fst r) && negb (is_nil (fst r)) &&
+  (is_nil (snd r) || match single_id (fst r) with Some _ => true | None => false end) &&
+  forallb cchild_ok (snd r) &&
+  Nat.leb (List.length (filter (is_rule CName) (snd r))) 1 &&
+  Nat.leb (List.length (filter (is_rule CDescr) (snd r))) 1.
+
+Definition ccfg_ok (c : ccfg) : bool := forallb crow_ok c && nodup_crows c.
+
+Definition wf_cdb (x : input_cdb) : bool := ccfg_ok (cdb_old x) && ccfg_ok (cdb_new x).
+
+(* guard of the theorems: in the old configuration a VLAN is written on one row (Catalyst
+   shape: VLANs that have a block are not repeated in the lists).  A Nexus prints the VLAN of a
+   block in the list row too; there the shipped code removes VLANs of S_old & S_new (known
+   finding). *)
+Definition rows_disjoint (x : input_cdb) : bool := pairwise_disjoint (c_lines (cdb_old x)).
+
+(* ---- the property ---- *)
+
+Definition cgcmds_ok (x : input_cdb) (cs : list gcmd) : bool :=
+  reaches (Scdb_old x) (Scdb_new x) (map effect cs) &&
+  keeps_common (Scdb_old x) (Scdb_new x) (map effect cs).
+
+Definition P_C11_cdb (x : input_cdb) (y : option (list trow)) : bool :=
+  if wf_cdb x then
+    match y with
+    | None => false
+    | Some rows => match parse_cgcmds rows with
+                   | None => false
+                   | Some cs => cgcmds_ok x cs
+                   end
+    end
+  else true.
+
+(* ---- correspondence helpers ---- *)
+
+Definition case_cdb := ((input_cdb * option (list trow * list trow)) * option (list trow))%type.
+
+Definition agree_cdb (c : case_cdb) : bool :=
+  let x := fst (fst c) in
+  let po := print_ccfg (cdb_old x) in
+  let pn := print_ccfg (cdb_new x) in
+  let t := match snd (fst c) with Some t => t | None => (po, pn) end in
+  perm_trow_eqb po (fst t) && perm_trow_eqb pn (snd t) &&
+  opt_trows_perm_eqb (cisco_rows (cdb_cat x) (fst t) (snd t)) (snd c).
+
+Definition holds_cdb (c : case_cdb) : bool := P_C11_cdb (fst (fst c)) (snd c).
+
+Definition struct_is_text_cdb (c : case_cdb) : bool :=
+  let x := fst (fst c) in
+  negb (wf_cdb x) ||
+  match cisco_struct (cdb_cat x) (cdb_old x) (cdb_new x),
+        cisco_rows (cdb_cat x) (print_ccfg (cdb_old x)) (print_ccfg (cdb_new x)) with
+  | Some cs, Some rows => trows_eqb (map (print_cgcmd (cdb_cat x)) cs) rows
+  | None, None => true
+  | _, _ => false
+  end.
+
+(* ---- classification of a failing case ---- *)
+
+(* the VLANs of the known-finding class: on a row that disappears and on a row that stays *)
+Definition doubly_written (x : input_cdb) : NS.t :=
+  NS.inter (set_of_ccfg (c_removed (cdb_old x) (cdb_new x)))
+           (set_of_ccfg (filter (fun r => has_crow (fst r) (cdb_new x)) (cdb_old x))).
+
+Definition cgcmds_ok_modulo (x : input_cdb) (w : NS.t) (cs : list gcmd) : bool :=
+  NS.equal (NS.diff (simulate (map effect cs) (Scdb_old x)) w) (NS.diff (Scdb_new x) w) &&
+  forallb (NS.subset (NS.diff (NS.inter (Scdb_old x) (Scdb_new x)) w)) (states (map effect cs) (Scdb_old x)).
+
+Definition diagnose_cdb (x : input_cdb) (y : option (list trow)) : string :=
+  if negb (wf_cdb x) then "outside-domain" else
+  match y with
+  | None => "raised"
+  | Some rows =>
+    match parse_cgcmds rows with
+    | None => "unreadable-command"
+    | Some cs =>
+      if cgcmds_ok x cs then "ok"
+      else if negb (rows_disjoint x) && cgcmds_ok_modulo x (doubly_written x) cs
+           then "vlan-of-kept-row-removed-with-its-block"
+      else if negb (keeps_common (Scdb_old x) (Scdb_new x) (map effect cs)) then "common-vlan-removed"
+      else "final-set-differs"
+    end
+  end.
+
+(* ---- compact case files:  idx|C or N|given|out   (C = hw.Catalyst) ---- *)
+
+Definition parse_crow (r : trow) : option crow :=
+  match strip_prefix ["vlan"] (words (fst r)) with
+  | Some [w] => option_map (fun rs => (rs, snd r)) (nonempty_ranges (cisco_parse_ranges w))
+  | _ => None
+  end.
+
+Definition parse_ccfg (rs : list trow) : option ccfg := all_some (map parse_crow rs).
+
+Definition decode_case_cdb (fields : list string) : option case_cdb :=
+  match fields with
+  | [k; g; out] =>
+    match split_char c_tilde g with
+    | [a; b] =>
+      let go := decode_trows a in
+      let gn := decode_trows b in
+      match parse_ccfg go, parse_ccfg gn with
+      | Some o, Some n =>
+        if String.eqb k "C" || String.eqb k "N" then
+          Some ((((String.eqb k "C", o), n), Some (go, gn)),
+                if String.eqb out "!" then None else Some (decode_trows out))
+        else None
+      | _, _ => None
+      end
+    | _ => None
+    end
+  | _ => None
+  end.
+
+Definition all3_cdb (c : case_cdb) : bool := agree_cdb c && holds_cdb c && struct_is_text_cdb c.
+
+Definition diag_class_cdb (x : input_cdb) (y : option (list trow)) : N :=
+  let d := diagnose_cdb x y in
+  if String.eqb d "ok" then 0
+  else if String.eqb d "vlan-of-kept-row-removed-with-its-block" then 1
+  else if String.eqb d "common-vlan-removed" then 2
+  else if String.eqb d "final-set-differs" then 3
+  else if String.eqb d "raised" then 4
+  else if String.eqb d "unreadable-command" then 5
+  else 6.
+
+Definition fail_code_cdb (c : case_cdb) : N :=
+  ((if agree_cdb c then 0 else 1) + (if holds_cdb c then 0 else 2) + (if struct_is_text_cdb c then 0 else 4) +
+   8 * (if holds_cdb c then 0 else diag_class_cdb (fst (fst c)) (snd c)))%N.
+
+Definition bad_line_cdb (l : string) : list (N * N) :=
+  match split_char c_bar l with
+  | i :: fields =>
+    if isdigit i then
+      match decode_case_cdb fields with
+      | Some c => if all3_cdb c then [] else [(N_of_str i, fail_code_cdb c)]
+      | None => [(N_of_str i, 255%N)]
+      end
+    else [(4294967295%N, 255%N)]
+  | [] => [(4294967295%N, 255%N)]
+  end.
+
+Definition check_data_cdb (data : string) : list (N * N) :=
+  flat_map bad_line_cdb (split_lines data).
